@@ -148,13 +148,18 @@ def job_inverse(job):
         out['configs'] += 1
         N = 2 ** alg.d
         one = {0: F(1)}
-        for it in range(cfg.get('random', 10)):
+        directed = [tuple(k) for k in cfg.get('operands', [])]
+        for it in range(cfg.get('random', 10) + len(directed)):
             mode = rng.choice(['sparse', 'grade', 'perm', 'full', 'sparse', 'mixed3', 'mixed3'])
-            if alg.d == 5:
+            if it < len(directed):
+                mode = 'directed'
+            if alg.d == 5 and mode != 'directed':
                 mode = rng.choice(['sparse', 'mixed3', 'mixed3', 'tiny'])     # dense 5-D patterns take minutes to generate
-            if alg.d >= 6:
+            if alg.d >= 6 and mode != 'directed':
                 mode = 'tiny'          # the iterative scheme is generated symbolically: keep the patterns small (cost, not correctness)
-            if mode == 'mixed3':
+            if mode == 'directed':
+                ak = directed[it]
+            elif mode == 'mixed3':
                 # a few blades of mixed grade parity (closed-form inverses have grade-specific correction terms)
                 ev = [k for k in range(N) if bin(k).count('1') % 2 == 0]
                 od = [k for k in range(N) if bin(k).count('1') % 2 == 1]
@@ -330,6 +335,36 @@ def job_symbolic(job):
                                                 'values': {str(k): str(v) for k, v in env.items()}, 'got': str(gotd)[:250], 'expected': str(expd)[:250]})
             if len(out['samples']) < 3:
                 out['samples'].append({'config': cfg, 'a': showmv(ak, av), 'b': showmv(bk, bv), 'values': {str(k): str(v) for k, v in env.items()}})
+        # roots: norm / normalized / differences built from them on one- and two-blade symbolic operands, evaluated at negative
+        # and positive values (an over-eager simplification such as sqrt(a**2) -> a is wrong exactly for negative a)
+        import warnings
+        a_s, b_s = sympy.Symbol('a1'), sympy.Symbol('a2')
+        blades = [k for k in range(1, 2 ** alg.d) if O.gp(fr.blade(k), fr.blade(k), fr.sig).get(0, 0) > 0][:3]
+        for K in blades:
+            forms = {'norm': lambda x: x.norm(), 'normalized': lambda x: x.normalized(),
+                     'normalized - blade': lambda x: x.normalized() - mv_from(alg, (K,), [1]),
+                     'x - norm': lambda x: x - x.norm()}
+            for fname, f in forms.items():
+                with warnings.catch_warnings():
+                    warnings.simplefilter('ignore')
+                    sres = _safe(lambda: f(mv_from(alg, (K,), [a_s])))
+                    if sres[0] != 'value':
+                        continue
+                    for val in (F(-2), F(-1, 2), F(3, 2)):
+                        out['evaluations'] += 1
+                        nres = _safe(lambda: f(mv_from(alg, (K,), [float(val)])))
+                        if nres[0] != 'value':
+                            continue
+                        want = {k: complex(v) for k, v in todict(nres[1]).items() if abs(complex(v)) > 1e-12}
+                        try:
+                            got = {k: complex(sympy.N(sympy.sympify(v).subs(a_s, sympy.Rational(val.numerator, val.denominator)))) for k, v in todict(sres[1]).items()}
+                        except Exception as e:
+                            got = {'EXC': repr(e)[:80]}
+                        got = {k: v for k, v in got.items() if not isinstance(v, complex) or abs(v) > 1e-12}
+                        bad = set(got) != set(want) or any(abs(got[k] - want[k]) > 1e-9 * max(1.0, abs(want[k])) for k in want)
+                        if bad and len(out['failures']) < 12:
+                            out['failures'].append({'config': cfg, 'op': fname, 'what': 'symbolic then subs != numeric (root of a square)', 'blade': alg.bin2canon[K],
+                                                    'value': str(val), 'got': str(got)[:200], 'expected': str(want)[:200]})
     out['distinct'] = len(pats)
     return out
 
